@@ -588,6 +588,24 @@ fn dedent_bytes(source: &[u8], is_utf8_byte_string: bool) -> Result<Vec<u8>, Str
   )
 }
 
+/// Sum of two integers as a literal: a uint when it is not negative, an int
+/// otherwise, and an error when it fits neither
+#[cfg(feature = "additional-controls")]
+fn integer_sum<'a>(a: i128, b: i128) -> Result<Type2<'a>, String> {
+  use std::convert::TryFrom;
+
+  let sum = a
+    .checked_add(b)
+    .ok_or_else(|| ".plus result is out of range".to_string())?;
+  if let Ok(sum) = usize::try_from(sum) {
+    Ok(sum.into())
+  } else if let Ok(sum) = isize::try_from(sum) {
+    Ok(sum.into())
+  } else {
+    Err(format!(".plus result {} is out of range", sum))
+  }
+}
+
 /// Numeric addition of target and controller. The Vec return type is to
 /// accommodate more than one type choice in the controller
 #[cfg(feature = "additional-controls")]
@@ -601,13 +619,13 @@ pub fn plus_operation<'a>(
     Type2::UintValue { value, .. } => match controller {
       Type2::UintValue {
         value: controller, ..
-      } => values.push((value + controller).into()),
+      } => values.push(integer_sum(*value as i128, *controller as i128)?),
       Type2::IntValue {
         value: controller, ..
-      } => values.push(((*value as isize + controller) as usize).into()),
+      } => values.push(integer_sum(*value as i128, *controller as i128)?),
       Type2::FloatValue {
         value: controller, ..
-      } => values.push(((*value as isize + *controller as isize) as usize).into()),
+      } => values.push(integer_sum(*value as i128, *controller as i128)?),
       Type2::Typename { ident, .. } => {
         let nv = numeric_values_from_ident(cddl, ident);
         if nv.is_empty() {
@@ -647,13 +665,13 @@ pub fn plus_operation<'a>(
     Type2::IntValue { value, .. } => match controller {
       Type2::IntValue {
         value: controller, ..
-      } => values.push((value + controller).into()),
+      } => values.push(integer_sum(*value as i128, *controller as i128)?),
       Type2::UintValue {
         value: controller, ..
-      } => values.push((value + *controller as isize).into()),
+      } => values.push(integer_sum(*value as i128, *controller as i128)?),
       Type2::FloatValue {
         value: controller, ..
-      } => values.push((value + *controller as isize).into()),
+      } => values.push(integer_sum(*value as i128, *controller as i128)?),
       Type2::Typename { ident, .. } => {
         let nv = numeric_values_from_ident(cddl, ident);
         if nv.is_empty() {
